@@ -97,6 +97,20 @@ def h_numbering(E, k, hn, hedges, invert, cs=(0,), hmax_t=1, hmax_s=1, omax_t=2,
         r3 = reactor(host2, rc, s, invert).its_list
         check_sets_equal(E, res[s], r3, "rewriting-the-substrate-changes-the-set-of-reactions",
                          dict(info, strategy=s, tau=tau, before=len(res[s]), after=len(r3)), node_map=tmap)
+    # one rule object applied to two substrates in a row: same answers as with fresh rule objects, rule left untouched
+    if not invert:
+        from synkit.Rule.syn_rule import SynRule
+        from harness.reactor_common import NoCanon
+
+        rule_obj = SynRule(rc, canonicaliser=NoCanon(), canon=False, implicit_h=False)
+        snap = ({v: dict(d) for v, d in rule_obj.rc.raw.nodes(data=True)},
+                {frozenset(e[:2]): dict(e[2]) for e in rule_obj.rc.raw.edges(data=True)})
+        first = reactor(host2, rule_obj, "all", False).its_list
+        second = reactor(host, rule_obj, "all", False).its_list
+        check_sets_equal(E, second, res["all"], "re-used-rule-object-changes-the-result", dict(info, n_first=len(first)))
+        snap2 = ({v: dict(d) for v, d in rule_obj.rc.raw.nodes(data=True)},
+                 {frozenset(e[:2]): dict(e[2]) for e in rule_obj.rc.raw.edges(data=True)})
+        E.check(NOT(EQ(snap, snap2)), "rule-object-modified-by-application", info)
     E.note(nontrivial=len(res["all"]) >= 2 or (len(res["all"]) >= 1 and sigma != sorted(sigma)))
     E.observe((len(res["all"]), len(res["comp"]), len(res["bt"])))
 
@@ -165,6 +179,8 @@ def shards(tier, seed):
     hosts = [(n, es) for n in (2, 3) for es in all_shapes(n)]
     for hn, he in hosts:
         for invert in (False, True):
+            if tier == "quick" and hn == 3 and invert != (len(he) % 2 == 1):
+                continue  # quick: one direction per 3-atom substrate shape, both in the thorough tier
             sh.append(dict(h="numbering", params=dict(k=2, hn=hn, hedges=he, invert=invert, cs=[0, 1] if hn == 2 else [0])))
     for hn, he in hosts:
         if hn == 3:
@@ -175,7 +191,8 @@ def shards(tier, seed):
     for hn, he in hosts:
         if hn == 3:
             sh.append(dict(h="history", params=dict(k=3, hn=hn, hedges=he, invert=False)))
-            sh.append(dict(h="history", params=dict(k=3, hn=hn, hedges=he, invert=True)))
+            if tier == "thorough":
+                sh.append(dict(h="history", params=dict(k=3, hn=hn, hedges=he, invert=True)))
     for fam in ("2+2", "ene-shift") + (("DA",) if tier == "thorough" else ()):
         for invert in (False, True):
             sh.append(dict(h="family", params=dict(family=fam, invert=invert)))
